@@ -22,7 +22,9 @@ RULE = ('Hypothesis-generated histories over a small resource tree (root, sub-ma
         'loads). Oracle: per handle a cached flag, the current object and a load '
         'counter: every access returns the identical object as the first access since the last clear, load() '
         'runs exactly on the first access after construction/clear, handle.cached equals the model flag after '
-        'every step. Non-trivial = a falsy/odd value accessed >= 2 times through >= 2 different access paths '
+        'every step. '
+        'A bulk operation may create and load 70-1100 further handles. '
+        'Non-trivial = a falsy/odd value accessed >= 2 times through >= 2 different access paths '
         'with a clear in between. Distinct = sha1 of canonical JSON.')
 ASSUMPTIONS = [
     'names in the tree are identifiers that do not collide with members of the snapshot type',
